@@ -10,11 +10,12 @@ WT=/tmp/try-$(basename "$D")
 git -C /repo worktree remove --force "$WT" >/dev/null 2>&1
 git -C /repo worktree add -f --detach "$WT" HEAD >/dev/null 2>&1 || { echo "worktree failed"; exit 2; }
 if ! git -C "$WT" apply "$PWD/$D/patch.diff"; then echo "PATCH DOES NOT APPLY"; git -C /repo worktree remove --force "$WT"; exit 2; fi
-( cd "$WT" && go build ./... && go test -vet=off -count=1 ./... 2>&1 | grep -v "^ok\|no test files" ) > /tmp/try-suite-$(basename "$D").log 2>&1
+if [ -n "${SKIP_SUITE:-}" ]; then ( cd "$WT" && go build ./... ) > /tmp/try-suite-$(basename "$D").log 2>&1; else
+( cd "$WT" && go build ./... && go test -vet=off -count=1 ./... 2>&1 | grep -v "^ok\|no test files" ) > /tmp/try-suite-$(basename "$D").log 2>&1; fi
 if [ -s /tmp/try-suite-$(basename "$D").log ]; then echo "SUITE NOT GREEN:"; head -20 /tmp/try-suite-$(basename "$D").log; else echo "suite green with the change"; fi
 for c in "$@"; do
   echo "--- $c"
-  VERIF_REPO="$WT" ./run.sh "$c" quick 2>&1 | grep "signature\|SUMMARY\|INCONCLUSIVE\|KNOWN" | sed 's/^ *//' | cut -c1-200 | sort | uniq -c | sort -rn | head -8
+  VERIF_REPO="$WT" ./run.sh "$c" quick 2>&1 | grep "signature\|SUMMARY\|INCONCLUSIVE\|KNOWN" | sed 's/^ *//' | cut -c1-200 | sort | uniq -c | sort -rn | head -60
 done
 git -C /repo worktree remove --force "$WT"
 tag=$(echo "$WT" | md5sum | cut -c1-8); rm -rf .out/alt-$tag .bin/*-alt-$tag* ; rm -f /tmp/try-suite-$(basename "$D").log
